@@ -45,7 +45,8 @@ class P2(Base):
 
 
 class P3(P1):
-    pass
+    def __bool__(self):     # a legal processor may be falsy
+        return False
 
 
 @desper.event_handler('on_add', 'on_remove')
